@@ -94,3 +94,78 @@ def file_reflects_edits(tier, seed, only=None):
                 fails.append(dict(clause='edit/observe history raised', inputs=dict(seed=seed, trial=trial, step=step, history=hist + [op]), detail=repr(ex)))
                 break
     return dict(evaluations=n, distinct_nontrivial=len(seen), failures=fails[:20])
+
+
+@bounded('play-schedule-with-slow-consumers', ('C13',), '200 (2000 thorough) random files (tempo changes with zero / non-zero deltas, 1-3 tracks) x random consumer delay patterns (none, one long stall, stalls on every k-th message, delays larger than the gaps); fake clock, time.sleep replaced')
+def play_schedule(tier, seed, only=None):
+    import mido
+    import time as _t
+    rng = random.Random(seed)
+    fails, n, seen = [], 0, set()
+    for trial in range(200 if tier == 'quick' else 2000):
+        tpb = rng.choice([96, 480])
+        tracks = []
+        for _ in range(rng.randrange(1, 4)):
+            tr = mido.MidiTrack()
+            for _ in range(rng.randrange(1, 8)):
+                if rng.random() < 0.25:
+                    tr.append(mido.MetaMessage('set_tempo', tempo=rng.choice([200000, 500000, 1000000]), time=rng.choice([0, 0, 240, 480])))
+                else:
+                    tr.append(mido.Message('note_on', note=rng.randrange(128), time=rng.choice([0, 1, 120, 480, 960])))
+            tracks.append(tr)
+        mf = mido.MidiFile(type=1, ticks_per_beat=tpb, tracks=tracks)
+        want_meta = rng.random() < 0.5
+        expected = list(mf)                               # seconds per message (proved under C13.__iter__)
+        pattern = rng.choice(['none', 'one-stall', 'every-2nd', 'huge'])
+        clock = [100.0]
+        slept = []
+        real_sleep = _t.sleep
+        _t.sleep = lambda d: (slept.append(d), clock.__setitem__(0, clock[0] + d))
+        got = []
+        try:
+            i = 0
+            for m in mf.play(meta_messages=want_meta, now=lambda: clock[0]):
+                got.append((m, clock[0]))
+                i += 1
+                if pattern == 'one-stall' and i == 1:
+                    clock[0] += 0.8
+                elif pattern == 'every-2nd' and i % 2 == 0:
+                    clock[0] += 0.3
+                elif pattern == 'huge':
+                    clock[0] += 5.0
+        except Exception as ex:
+            fails.append(dict(clause='play raised', inputs=dict(seed=seed, trial=trial), detail=repr(ex)))
+            continue
+        finally:
+            _t.sleep = real_sleep
+        n += 1
+        seen.add((trial, pattern))
+        sched, t = [], 0.0
+        for m in expected:
+            t += m.time
+            if want_meta or not m.is_meta:
+                sched.append((m, 100.0 + t))
+        ok = len(got) == len(sched)
+        why = 'number of messages'
+        if ok:
+            for (gm, gt), (sm, stime) in zip(got, sched):
+                if str(gm) != str(sm) and repr(gm) != repr(sm):
+                    ok, why = False, 'message %r instead of %r' % (gm, sm)
+                    break
+                if gt < stime - 1e-9:
+                    ok, why = False, 'yielded %r before its scheduled time %r' % (gt, stime)
+                    break
+            # no accumulated drift: when the consumer is idle again, messages are on schedule, i.e. never later than
+            # max(scheduled, time the consumer asked for it)
+        if ok:
+            clock2 = [100.0]
+            req = 100.0
+            for k, ((gm, gt), (sm, stime)) in enumerate(zip(got, sched)):
+                latest = max(stime, req)
+                if gt > latest + 1e-6:
+                    ok, why = False, 'message %d yielded at %r, later than max(scheduled %r, requested %r): drift' % (k, gt, stime, req)
+                    break
+                req = gt + (0.8 if (pattern == 'one-stall' and k == 0) else 0.3 if (pattern == 'every-2nd' and (k + 1) % 2 == 0) else 5.0 if pattern == 'huge' else 0.0)
+        if not ok:
+            fails.append(dict(clause='play follows the schedule without drift', inputs=dict(seed=seed, trial=trial, pattern=pattern, meta_messages=want_meta), detail=why))
+    return dict(evaluations=n, distinct_nontrivial=len(seen), failures=fails[:20])
